@@ -52,8 +52,8 @@ HdrObsOK(o, d, first) ==
   /\ o.res = "ok"
   /\ Has(o, "h") /\ o.h = d.h
   /\ (Has(o, "pos") => o.pos = 127)
-  /\ Has(o, "re_sync") /\ o.re_sync = first
-  /\ Has(o, "re_async") /\ o.re_async = first
+  /\ Has(o, "re_sync") /\ o.re_sync_res = "ok" /\ o.re_sync = first
+  /\ Has(o, "re_async") /\ o.re_async_res = "ok" /\ o.re_async = first
 
 HdrJudge(e) ==
   LET d == Hd!DecHeader(e.bytes) IN
